@@ -1,6 +1,7 @@
 #!/bin/bash
 # usage: sweep.sh [-b <glbcheck binary>] <Cxx>...   — run every seeded change that concerns the given properties
-# against those properties (scratch copies) and print only the surprises: MISSED mutants and ALARMs on refactors.
+# against those properties (scratch copies) and print only the surprises: MISSED mutants and ALARMs on refactors
+# (alarms recorded in a refactor's meta as outside_fragment — documented limits, DESIGN §9.3 — are not repeated).
 export GLBCHECK=/verif/bin/glbcheck
 if [ "$1" = "-b" ]; then export GLBCHECK=$2; shift 2; fi
 props="$*"
@@ -15,11 +16,11 @@ for m in sorted(glob.glob('/verif/seeded/*/meta.json')):
     for c in props:
         if kind=='refactor':
             if any(t.startswith(k+'/') for t in touched for k in pkg[c].split()):
-                print(c,d,'refactor')
+                print(c,d,'residual' if c in meta.get('outside_fragment',[]) else 'refactor')
         else:
             det=meta.get('detected_by') or [meta.get('property')]
             if c in det: print(c,d,'mutant')
 PY
-cat /tmp/sweep.$$.list | xargs -P 12 -L 1 bash -c 'out=$(/verif/tools/trymutant.sh $0 $1/patch.diff 2>&1); n=$(echo "$out" | grep -c "violated\|undecided"); if echo "$out" | grep -q "PATCH DOES NOT APPLY"; then echo "NOAPPLY $0 $(basename $1)"; elif ! echo "$out" | grep -q SCRATCH-DONE; then echo "CRASH $0 $(basename $1): $(echo "$out" | head -3 | cut -c1-300)"; elif [ $2 = mutant ] && [ $n = 0 ]; then echo "MISSED $0 $(basename $1)"; elif [ $2 = refactor ] && [ $n != 0 ]; then echo "ALARM $0 $(basename $1): $(echo "$out" | grep "violated\|undecided" | cut -f2,3,5 | cut -c1-260 | head -2 | tr "\n" "|")"; fi' | sort
+cat /tmp/sweep.$$.list | xargs -P 12 -L 1 bash -c 'out=$(/verif/tools/trymutant.sh $0 $1/patch.diff 2>&1); n=$(echo "$out" | grep -c "violated\|undecided"); if echo "$out" | grep -q "PATCH DOES NOT APPLY"; then echo "NOAPPLY $0 $(basename $1)"; elif ! echo "$out" | grep -q SCRATCH-DONE; then echo "CRASH $0 $(basename $1): $(echo "$out" | head -3 | cut -c1-300)"; elif [ $2 = mutant ] && [ $n = 0 ]; then echo "MISSED $0 $(basename $1)"; elif [ $2 = residual ] && [ $n = 0 ]; then echo "NOW-SILENT $0 $(basename $1) (listed as outside the fragment: run tools/gen_round4.py)"; elif [ $2 = refactor ] && [ $n != 0 ]; then echo "ALARM $0 $(basename $1): $(echo "$out" | grep "violated\|undecided" | cut -f2,3,5 | cut -c1-260 | head -2 | tr "\n" "|")"; fi' | sort
 echo "swept $(wc -l < /tmp/sweep.$$.list) (change, property) pairs"
 rm -f /tmp/sweep.$$.list
